@@ -289,3 +289,78 @@ func VerifC07Moves() {
 		}
 	}
 }
+
+// VerifC07BlockMoves: block moves only permute the block order; they never
+// change an instruction's address, and address lookups keep working.
+// vBlockWords (real RV64 words, three blocks of 3, 2 and 4 instructions) is
+// built by vBuildCodeWords in the C05 harness file of this package.
+func VerifC07BlockMoves() {
+	words := []uint32{
+		vI(5, 0, 0, 1, 0x13), vR(0, 1, 1, 0, 2, 0x33), vJ(12, 0), // 0x1000.. jal -> 0x1014
+		vI(1, 3, 0, 3, 0x13), vI(0, 1, 0, 0, 0x67), // 0x100c, 0x1010 jalr
+		vI(1, 1, 0, 1, 0x13), vI(7, 0, 0, 3, 0x13), vS(0, 3, 2, 3, 0x23), vI(2, 2, 0, 2, 0x13), // 0x1014..
+	}
+	vC05Seq = nil
+	var code *Code
+	var err error
+	sym.NoPanic(func() { code, err = vBuildCode(words) })
+	sym.Assert(err == nil && code.Len() == 3, "three blocks")
+	if err != nil || code.Len() != 3 {
+		return
+	}
+	type snap struct {
+		blk   *block
+		begin model.Addr
+		addrs []model.Addr
+	}
+	var order []snap
+	for _, b := range code.blocks {
+		s := snap{blk: b, begin: b.Begin()}
+		for _, ins := range b.seq {
+			s.addrs = append(s.addrs, ins.Begin())
+		}
+		order = append(order, s)
+	}
+	n := code.Len()
+	moves := sym.Param("moves", 1)
+	for m := 0; m < moves; m++ {
+		from, to := sym.Int(fmt.Sprintf("bfrom%d", m)), sym.Int(fmt.Sprintf("bto%d", m))
+		valid := sym.And(sym.And(from >= 0, from < n), sym.And(to >= 0, to < n))
+		var merr error
+		sym.NoPanic(func() { merr = code.Move(from, to) })
+		sym.Assert((merr == nil) == valid, "a block move succeeds exactly when both positions are valid")
+		if merr == nil {
+			sym.Reach("block-move-accepted")
+			var exp []snap
+			for i, x := range order {
+				if i != from {
+					exp = append(exp, x)
+				}
+			}
+			exp = append(exp[:to], append([]snap{order[from]}, exp[to:]...)...)
+			order = exp
+		} else {
+			sym.Reach("block-move-rejected")
+		}
+		for i, s := range order {
+			sym.Assert(code.blocks[i] == s.blk && s.blk.Idx() == i, "block moves only permute the block order (and keep the position numbers current)")
+			sym.Assert(s.blk.Begin() == s.begin, "a block move never changes a block's address")
+			for j, ins := range s.blk.seq {
+				sym.Assert(ins.Begin() == s.addrs[j], "a block move never changes an instruction's address")
+			}
+		}
+		// lookups: every instruction start is found in its block, nothing elsewhere
+		probe := model.Addr(uint64(vC05Base) - 4 + uint64(sym.Uint8(fmt.Sprintf("bprobe%d", m))))
+		blk, ok := code.Address(probe)
+		var want *block
+		for _, s := range order {
+			if probe >= s.blk.Begin() && probe < s.blk.End() {
+				want = s.blk
+			}
+		}
+		sym.Assert(ok == (want != nil), "address lookup finds a block exactly for addresses inside the code")
+		if ok && want != nil {
+			sym.Assert(blk.block == want, "address lookup returns the block containing the address")
+		}
+	}
+}
